@@ -71,27 +71,19 @@ theorem duration_rejects_scientific :
     XmlDuration.ofString Env.ascii "PT1_5S".toList = none ∧
     (XmlDuration.ofString Env.ascii "PT1.5S".toList).isSome = true := by decide
 
-private theorem digs' {s : Str} (h : s.all isAsciiDigit = true) : Xs.Conv.AllDigits s := by
-  intro c hc; exact List.all_eq_true.1 h c hc
-
-private theorem du {t : Str} (h : t.all isAsciiDigit = true) (hne : t ≠ []) : duDigits (some t) := by
-  intro u hu; cases hu; exact ⟨hne, digs' h⟩
-
-private theorem duNone : duDigits none := by intro u hu; cases hu
-
 /-! the hypothesis is satisfiable: every component at once, negative, fractional seconds;
 and a single time component -/
 
 example : XsdDuration "-P2Y6M5DT12H35M30.5S".toList true (some "2".toList) (some "6".toList)
     (some "5".toList) (some "12".toList) (some "35".toList) (some "30.5".toList) :=
-  ⟨du (by decide) (by decide), du (by decide) (by decide), du (by decide) (by decide),
-    du (by decide) (by decide), du (by decide) (by decide),
-    (by intro t ht; cases ht; exact ⟨"30".toList, "5".toList, by decide, digs' (by decide), digs' (by decide), rfl⟩),
+  ⟨duDigits_lit (by decide) (by decide), duDigits_lit (by decide) (by decide), duDigits_lit (by decide) (by decide),
+    duDigits_lit (by decide) (by decide), duDigits_lit (by decide) (by decide),
+    (by intro t ht; cases ht; exact ⟨"30".toList, "5".toList, by decide, allDigits_of_all (by decide), allDigits_of_all (by decide), rfl⟩),
     Or.inl rfl, rfl⟩
 
 example : XsdDuration "PT0S".toList false none none none none none (some "0".toList) :=
-  ⟨duNone, duNone, duNone, duNone, duNone,
-    (by intro t ht; cases ht; exact ⟨"0".toList, [], by decide, digs' (by decide), digs' (by decide), rfl⟩),
+  ⟨duDigits_none, duDigits_none, duDigits_none, duDigits_none, duDigits_none,
+    (by intro t ht; cases ht; exact ⟨"0".toList, [], by decide, allDigits_of_all (by decide), allDigits_of_all (by decide), rfl⟩),
     Or.inr (Or.inr (Or.inr (Or.inr (Or.inr rfl)))), rfl⟩
 
 end Props.C06
